@@ -234,6 +234,56 @@ def rule_target(ck: Check, repo: Repo) -> None:
         r.instance("target:" + show_valuation(short), {"target": got})
         if got != want:
             r.violation(aq, f"header target when [{show_valuation(short)}]", f"{got}; expected {want}", repo.loc(an))
+    # every path annotate processes is redirected to an existing FILE.license (lint reads only the sibling)
+    ap = repo.func(f"{CA}.all_paths")
+    ck.analysed_fn(f"{CA}.all_paths")
+
+    def redirected(e: ast.AST, depth: int = 0) -> bool:
+        """Must-pass-through: every element of the collection denoted by e went through _determine_license_path."""
+        if depth > 6:
+            return False
+        if isinstance(e, (ast.ListComp, ast.SetComp, ast.GeneratorExp)):
+            return isinstance(e.elt, ast.Call) and ast.unparse(e.elt.func) == "_determine_license_path"
+        if isinstance(e, ast.Call) and isinstance(e.func, ast.Name) and e.func.id in ("list", "set", "sorted", "tuple", "frozenset") and e.args:
+            return redirected(e.args[0], depth + 1)
+        if isinstance(e, ast.Name):
+            name = e.id
+            defs = []
+            for n in ast.walk(ap):
+                if isinstance(n, (ast.Assign, ast.AnnAssign)):
+                    tgts = n.targets if isinstance(n, ast.Assign) else [n.target]
+                    if any(ast.unparse(t) == name for t in tgts) and n.value is not None:
+                        defs.append(("def", n.value))
+                elif isinstance(n, ast.AugAssign) and ast.unparse(n.target) == name:
+                    defs.append(("def", n.value))
+                elif isinstance(n, ast.Call) and isinstance(n.func, ast.Attribute) and ast.unparse(n.func.value) == name:
+                    if n.func.attr in ("add", "append") and n.args:
+                        defs.append(("elem", n.args[0]))
+                    elif n.func.attr in ("update", "extend") and n.args:
+                        defs.append(("def", n.args[0]))
+            if not defs:
+                return False
+            for kind, v in defs:
+                if kind == "elem":
+                    if not (isinstance(v, ast.Call) and ast.unparse(v.func) == "_determine_license_path"):
+                        return False
+                elif isinstance(v, ast.Call) and ast.unparse(v.func) in ("set", "list") and not v.args:
+                    continue  # empty container
+                elif not redirected(v, depth + 1):
+                    return False
+            return True
+        if isinstance(e, ast.BinOp) and isinstance(e.op, (ast.BitOr, ast.Add)):
+            return redirected(e.left, depth + 1) and redirected(e.right, depth + 1)
+        return False
+
+    rets = [n.value for n in ast.walk(ap) if isinstance(n, ast.Return) and n.value is not None]
+    ok = bool(rets) and all(redirected(v) for v in rets)
+    r.instance("license-sibling-redirection", {"returns": [ast.unparse(v)[:80] for v in rets], "all_redirected": ok})
+    if not ok:
+        r.violation(f"{CA}.all_paths", "not every processed path is redirected to its existing .license sibling",
+                    "a path that reaches the annotate loop without passing through _determine_license_path gets its header written"
+                    " into FILE although FILE.license exists; lint reads only the sibling, so the requested information is not read back",
+                    repo.loc(ap))
     sq = "reuse._util._determine_license_suffix_path"
     sf = repo.func(sq)
 
